@@ -165,6 +165,18 @@ class RunFor:
                 if v is not None and d.kind in ('assign', 'aug') and \
                         'self.emit_step' in A.unparse(v):
                     out.add(name)
+        # ... and copies of them (rounded or not)
+        for _round in range(3):
+            for name, ds in local_defs(self.fnode).items():
+                for d in ds:
+                    v = d.value
+                    if d.kind != 'assign' or v is None:
+                        continue
+                    if isinstance(v, ast.Call) and A.call_name(
+                            v) == 'round' and v.args:
+                        v = v.args[0]
+                    if isinstance(v, ast.Name) and v.id in out:
+                        out.add(name)
         return out or {'emit_time'}
 
     def poll_targets(self):
